@@ -6,6 +6,7 @@ package e2
 
 import (
 	"fmt"
+	"time"
 
 	vs "github.com/theQRL/go-qrllib/verifsched"
 )
@@ -38,7 +39,11 @@ type Stats struct {
 	ConflictVars                                      []string
 	BoundCompleted                                    int
 	Restarts                                          int
+	Capped                                            bool
 }
+
+// Progress, if set, is called after every execution (watchdog keep-alive).
+var Progress func()
 
 type Violation struct {
 	Scenario string
@@ -154,8 +159,9 @@ func (x *Exec) preemptionsBefore(i int) int {
 }
 
 // Explore enumerates all schedules with at most maxBound preemptions; check is called on every execution.
-func Explore(sc *Scenario, maxBound int, expected []string, maxExec int64) (*Stats, *Violation) {
-	st := &Stats{Outcomes: map[string]int64{}}
+func Explore(sc *Scenario, maxBound int, expected []string, maxExec int64, budget time.Duration) (*Stats, *Violation) {
+	deadline := time.Now().Add(budget)
+	st := &Stats{Outcomes: map[string]int64{}, BoundCompleted: -1}
 	for i := range vs.Conflict {
 		vs.Conflict[i] = false
 	}
@@ -215,15 +221,26 @@ func Explore(sc *Scenario, maxBound int, expected []string, maxExec int64) (*Sta
 		if viol != nil || (maxExec > 0 && st.Executions >= maxExec) {
 			return true
 		}
+		if budget > 0 && time.Now().After(deadline) {
+			st.Capped = true
+			return true
+		}
 		x := run(sc, prefix)
+		if Progress != nil {
+			Progress()
+		}
 		st.PointsSeen = vs.PointsSeen
 		if grow() {
 			return false // restart with the larger conflict set
 		}
 		check(x)
+		pre := x.preemptionsBefore(len(prefix))
 		for i := len(prefix); i < len(x.points); i++ {
 			p := x.points[i]
-			cost := x.preemptionsBefore(i)
+			cost := pre
+			if p.runEn && x.Choices[i] != 0 {
+				pre++ // the executed choice at i was itself a preemption (only inside the replayed prefix)
+			}
 			if p.runEn {
 				cost++
 			}
@@ -251,9 +268,16 @@ func Explore(sc *Scenario, maxBound int, expected []string, maxExec int64) (*Sta
 			*st = save
 			st.Outcomes = out
 			st.Restarts++
+			if budget > 0 && time.Now().After(deadline) {
+				st.Capped = true
+				break
+			}
 		}
-		if viol == nil && !(maxExec > 0 && st.Executions >= maxExec) {
+		if viol == nil && !(maxExec > 0 && st.Executions >= maxExec) && !st.Capped {
 			st.BoundCompleted = b
+		}
+		if st.Capped {
+			break
 		}
 	}
 	for id := 0; id < len(vs.VarNames) && id < vs.MaxVars; id++ {
